@@ -214,11 +214,67 @@ def _apalache(chk, module, inv, expect_error):
             raise MachineryError("Apalache failed on %s/%s:\n%s" % (module, inv, p.stdout[-1500:]))
 
 
+
+def _object_bin_events(args):
+    """the .bin attribute every interval object carries (genes, transcripts, features, feature collections, variants,
+    variant collections) is the bin of ITS OWN span -- judged by the same clauses as bins(start, end)"""
+    seed, n = args
+    setup_repo_import()
+    from inscripta.biocantor.gene.feature import FeatureInterval, FeatureIntervalCollection
+    from inscripta.biocantor.gene.gene import GeneInterval
+    from inscripta.biocantor.gene.variants import VariantInterval, VariantIntervalCollection
+    from inscripta.biocantor.location.strand import Strand
+    from bcverif.props.c06 import mk_tx
+
+    rnd = random.Random(seed)
+    ev = []
+
+    def span_near_boundary():
+        sh = rnd.choice(LEVEL_SHIFTS[:4])
+        size = 1 << sh
+        base = rnd.randrange(1, max(2, min(200, MAXC // size - 2))) * size
+        a = max(0, base + rnd.choice([-1500, -900, -3, -1, 0, 1, 5]))
+        return a, size
+
+    for _ in range(n):
+        a, size = span_near_boundary()
+        # two pieces with a gap between them that may contain the boundary: [a, a+l1) ... [b, b+l2)
+        l1, l2 = rnd.choice([1, 3, 500]), rnd.choice([1, 3, 500])
+        b = a + l1 + rnd.choice([1, 10, 1400, size - l1, size])
+        st = rnd.choice("+-")
+        try:
+            t1 = mk_tx([[a, a + l1]], st, None, None, transcript_id="t1")
+            t2 = mk_tx([[b, b + l2]], st, None, None, transcript_id="t2")
+            t3 = mk_tx([[a, a + l1], [b, b + l2]], st, None, None, transcript_id="t3")
+            objs = [("transcript", t1), ("transcript", t2), ("transcript", t3),
+                    ("gene", GeneInterval([t1, t2], gene_id="g")),
+                    ("gene", GeneInterval([t2, t1], gene_id="g")), ("gene", GeneInterval([t3], gene_id="g"))]
+            f1 = FeatureInterval([a], [a + l1], Strand.from_symbol(st), feature_name="f1")
+            f2 = FeatureInterval([b], [b + l2], Strand.from_symbol(st), feature_name="f2")
+            f3 = FeatureInterval([a, b], [a + l1, b + l2], Strand.from_symbol(st), feature_name="f3")
+            objs += [("feature", f1), ("feature", f2), ("feature", f3),
+                     ("feature_collection", FeatureIntervalCollection([f1, f2], feature_collection_name="fc")),
+                     ("feature_collection", FeatureIntervalCollection([f2, f1], feature_collection_name="fc"))]
+            v1 = VariantInterval(a, a + l1, "A" * l1, "SNV")
+            v2 = VariantInterval(b, b + l2, "A" * l2, "SNV")
+            objs += [("variant", v1), ("variant", v2),
+                     ("variant_collection", VariantIntervalCollection([v1, v2], variant_collection_name="vc")),
+                     ("variant_collection", VariantIntervalCollection([v2, v1], variant_collection_name="vc"))]
+        except Exception:
+            continue
+        for kind, o in objs:
+            if not hasattr(o, "bin"):
+                continue  # variant collections carry no bin
+            bn = getattr(o, "bin", None)
+            ev.append(["bin", o.start, o.end, 0, bn if isinstance(bn, int) else -1, kind])
+    return ev
+
+
 def _key(ev, clause):
     # known finding: assigned bin not the smallest when the exclusive end sits on a finest-bin boundary
     if ev[0] == "bin" and clause == "bin-smallest":
         s, e = ev[1] - ev[3], ev[2]
-        if e % (1 << 17) == 0:
+        if e % (1 << 17) == 0 and s >= e - (1 << 29):
             return "bins:end-on-bin-boundary"
     return None
 
@@ -250,10 +306,12 @@ def run(chk):
     evs += [e for part in pmap(_hide_events, [(chk.seed * 1000 + i, nh) for i in range(32)]) for e in part]
     nq = 12 if quick else 150
     evs += [e for part in pmap(_rq_events, [(chk.seed * 1000 + i, nq) for i in range(32)]) for e in part]
+    evs += [e for part in pmap(_object_bin_events, [(chk.seed * 1000 + i, 25 if quick else 400) for i in range(32)]) for e in part]
     evs += suite_events(chk, "C16Trace")  # leg S: the repository's own tests, traced passively
     chk.validate("C16Trace", evs, shard=6000, label="bins", keyfn=_key)
     chk.nontrivial = len({(e[0], e[1], e[2], e[3] if e[0] != "hide" else 0) for e in evs})
     chk.extra["event_kinds"] = {k: sum(1 for e in evs if e[0] == k) for k in ("bin", "set", "hide", "rq")}
+    chk.extra["object_bin_attributes_judged"] = sum(1 for e in evs if e[0] == "bin" and len(e) > 5)
     chk.trusted += ["TLC", "Apalache/Z3 (full-range theorem is about the transcription Bins!AlgoBin, bound to the "
                     "code by the Sem-judged events)", "Bins.tla"]
     chk.assumptions += ["cgranges is absent in this sandbox, so the bin pre-filter path of _query_by_position is "
